@@ -387,6 +387,20 @@ func sameKeys(a, b []Item) bool {
 	return true
 }
 
+// sameItems: the same records and the same errors (compared by their messages: what an error
+// says about the content must not depend on how the bytes were delivered either).
+func sameItems(a, b []Item) bool {
+	if !sameKeys(a, b) {
+		return false
+	}
+	for i := range a {
+		if a[i].Err != nil && b[i].Err != nil && a[i].Err.Error() != b[i].Err.Error() {
+			return false
+		}
+	}
+	return true
+}
+
 // ---- temp files -------------------------------------------------------------------------
 
 var tmpOnce sync.Once
